@@ -451,7 +451,23 @@ ErrorCode Library::write_oas(const char* filename, double circle_tolerance,
         Array<RawCell*> top_rawcells = {};
         top_level(top_cells, top_rawcells);
         for (uint64_t i = 0; i < top_cells.count; i++) {
-            set_property(properties, s_top_level_property_name, top_cells[i]->name, true);
+            // References are stored by name in the file: a cell placed only
+            // through by-name references is not a top-level cell there
+            const char* top_name = top_cells[i]->name;
+            bool placed_by_name = false;
+            for (uint64_t j = 0; j < cell_array.count && !placed_by_name; j++) {
+                const Array<Reference*>& refs = cell_array[j]->reference_array;
+                for (uint64_t k = 0; k < refs.count; k++) {
+                    if (refs[k]->type == ReferenceType::Name &&
+                        strcmp(refs[k]->name, top_name) == 0) {
+                        placed_by_name = true;
+                        break;
+                    }
+                }
+            }
+            if (!placed_by_name) {
+                set_property(properties, s_top_level_property_name, top_name, true);
+            }
         }
         top_cells.clear();
         top_rawcells.clear();
